@@ -97,9 +97,15 @@ def sums_layer(ctx, conn):
             if rows and acc != total[0][0]:
                 ctx.record_violation('partition-sums', '%s: group sums %s != total %s' % (q, acc, total[0][0]))
         # homomorphism identities on the implementation
-        for f, g in (('units({})', 'units({})'), ('cost({})', 'cost({})'), ('value({})', 'value({})'),
+        # dates inside the ledger's span, so that prices before and after them differ
+        pdates = sorted({r[0] for r in conn.execute('SELECT date FROM #prices').fetchall()})
+        mids = [d.isoformat() for d in ([pdates[0], pdates[len(pdates) // 2]] if pdates else [])]
+        dated = []
+        for md in mids:
+            dated += [("convert({}, 'USD', %s)" % md,) * 2, ("value({}, %s)" % md,) * 2, ("convert({}, 'EUR', %s)" % md,) * 2]
+        for f, g in [('units({})', 'units({})'), ('cost({})', 'cost({})'), ('value({})', 'value({})'),
                      ("convert({}, 'USD')", "convert({}, 'USD')"), ('value({}, 2020-06-30)', 'value({}, 2020-06-30)'),
-                     ("convert({}, 'EUR', 2020-06-30)", "convert({}, 'EUR', 2020-06-30)")):
+                     ("convert({}, 'EUR', 2020-06-30)", "convert({}, 'EUR', 2020-06-30)")] + dated:
             q = 'SELECT account, %s AS a, sum(%s) AS b FROM #postings%s GROUP BY account' % (f.format('sum(position)'), g.format('position'), w)
             try:
                 res = conn.execute(q).fetchall()
